@@ -258,421 +258,421 @@ operand bits zero) -/
 structure Isa where
   mn : Mn
   value : Nat
+  mask : Nat     -- redundant: `la_isa_wf` proves it is `maskOf (layout fmt)` for every entry
   fmt : Fm
   deriving DecidableEq, Repr
 
 open Mn Fm in
 def isaTable : List Isa := [
-  ⟨CLO_W, 0x00001000, f2R⟩,
-  ⟨CLZ_W, 0x00001400, f2R⟩,
-  ⟨CTO_W, 0x00001800, f2R⟩,
-  ⟨CTZ_W, 0x00001c00, f2R⟩,
-  ⟨CLO_D, 0x00002000, f2R⟩,
-  ⟨CLZ_D, 0x00002400, f2R⟩,
-  ⟨CTO_D, 0x00002800, f2R⟩,
-  ⟨CTZ_D, 0x00002c00, f2R⟩,
-  ⟨REVB_2H, 0x00003000, f2R⟩,
-  ⟨REVB_4H, 0x00003400, f2R⟩,
-  ⟨REVB_2W, 0x00003800, f2R⟩,
-  ⟨REVB_D, 0x00003c00, f2R⟩,
-  ⟨REVH_2W, 0x00004000, f2R⟩,
-  ⟨REVH_D, 0x00004400, f2R⟩,
-  ⟨BITREV_4B, 0x00004800, f2R⟩,
-  ⟨BITREV_8B, 0x00004c00, f2R⟩,
-  ⟨BITREV_W, 0x00005000, f2R⟩,
-  ⟨BITREV_D, 0x00005400, f2R⟩,
-  ⟨EXT_W_H, 0x00005800, f2R⟩,
-  ⟨EXT_W_B, 0x00005c00, f2R⟩,
-  ⟨RDTIMEL_W, 0x00006000, f2R⟩,
-  ⟨RDTIMEH_W, 0x00006400, f2R⟩,
-  ⟨RDTIME_D, 0x00006800, f2R⟩,
-  ⟨CPUCFG, 0x00006c00, f2R⟩,
-  ⟨ASRTLE_D, 0x00010000, f0_2R⟩,
-  ⟨ASRTGT_D, 0x00018000, f0_2R⟩,
-  ⟨ALSL_W, 0x00040000, f3R_sa2⟩,
-  ⟨ALSL_WU, 0x00060000, f3R_sa2⟩,
-  ⟨BYTEPICK_W, 0x00080000, f3R_sa2⟩,
-  ⟨BYTEPICK_D, 0x000c0000, f3R_sa3⟩,
-  ⟨ADD_W, 0x00100000, f3R⟩,
-  ⟨ADD_D, 0x00108000, f3R⟩,
-  ⟨SUB_W, 0x00110000, f3R⟩,
-  ⟨SUB_D, 0x00118000, f3R⟩,
-  ⟨SLT, 0x00120000, f3R⟩,
-  ⟨SLTU, 0x00128000, f3R⟩,
-  ⟨MASKEQZ, 0x00130000, f3R⟩,
-  ⟨MASKNEZ, 0x00138000, f3R⟩,
-  ⟨NOR, 0x00140000, f3R⟩,
-  ⟨AND, 0x00148000, f3R⟩,
-  ⟨OR, 0x00150000, f3R⟩,
-  ⟨XOR, 0x00158000, f3R⟩,
-  ⟨ORN, 0x00160000, f3R⟩,
-  ⟨ANDN, 0x00168000, f3R⟩,
-  ⟨SLL_W, 0x00170000, f3R⟩,
-  ⟨SRL_W, 0x00178000, f3R⟩,
-  ⟨SRA_W, 0x00180000, f3R⟩,
-  ⟨SLL_D, 0x00188000, f3R⟩,
-  ⟨SRL_D, 0x00190000, f3R⟩,
-  ⟨SRA_D, 0x00198000, f3R⟩,
-  ⟨ROTR_W, 0x001b0000, f3R⟩,
-  ⟨ROTR_D, 0x001b8000, f3R⟩,
-  ⟨MUL_W, 0x001c0000, f3R⟩,
-  ⟨MULH_W, 0x001c8000, f3R⟩,
-  ⟨MULH_WU, 0x001d0000, f3R⟩,
-  ⟨MUL_D, 0x001d8000, f3R⟩,
-  ⟨MULH_D, 0x001e0000, f3R⟩,
-  ⟨MULH_DU, 0x001e8000, f3R⟩,
-  ⟨MULW_D_W, 0x001f0000, f3R⟩,
-  ⟨MULW_D_WU, 0x001f8000, f3R⟩,
-  ⟨DIV_W, 0x00200000, f3R⟩,
-  ⟨MOD_W, 0x00208000, f3R⟩,
-  ⟨DIV_WU, 0x00210000, f3R⟩,
-  ⟨MOD_WU, 0x00218000, f3R⟩,
-  ⟨DIV_D, 0x00220000, f3R⟩,
-  ⟨MOD_D, 0x00228000, f3R⟩,
-  ⟨DIV_DU, 0x00230000, f3R⟩,
-  ⟨MOD_DU, 0x00238000, f3R⟩,
-  ⟨CRC_W_B_W, 0x00240000, f3R⟩,
-  ⟨CRC_W_H_W, 0x00248000, f3R⟩,
-  ⟨CRC_W_W_W, 0x00250000, f3R⟩,
-  ⟨CRC_W_D_W, 0x00258000, f3R⟩,
-  ⟨CRCC_W_B_W, 0x00260000, f3R⟩,
-  ⟨CRCC_W_H_W, 0x00268000, f3R⟩,
-  ⟨CRCC_W_W_W, 0x00270000, f3R⟩,
-  ⟨CRCC_W_D_W, 0x00278000, f3R⟩,
-  ⟨BREAK, 0x002a0000, fcode⟩,
-  ⟨DBCL, 0x002a8000, fcode⟩,
-  ⟨SYSCALL, 0x002b0000, fcode⟩,
-  ⟨ALSL_D, 0x002c0000, f3R_sa2⟩,
-  ⟨SLLI_W, 0x00408000, f2R_ui5⟩,
-  ⟨SLLI_D, 0x00410000, f2R_ui6⟩,
-  ⟨SRLI_W, 0x00448000, f2R_ui5⟩,
-  ⟨SRLI_D, 0x00450000, f2R_ui6⟩,
-  ⟨SRAI_W, 0x00488000, f2R_ui5⟩,
-  ⟨SRAI_D, 0x00490000, f2R_ui6⟩,
-  ⟨ROTRI_W, 0x004c8000, f2R_ui5⟩,
-  ⟨ROTRI_D, 0x004d0000, f2R_ui6⟩,
-  ⟨BSTRINS_W, 0x00600000, f2R_msbw_lsbw⟩,
-  ⟨BSTRPICK_W, 0x00608000, f2R_msbw_lsbw⟩,
-  ⟨BSTRINS_D, 0x00800000, f2R_msbd_lsbd⟩,
-  ⟨BSTRPICK_D, 0x00c00000, f2R_msbd_lsbd⟩,
-  ⟨FADD_S, 0x01008000, f3F⟩,
-  ⟨FADD_D, 0x01010000, f3F⟩,
-  ⟨FSUB_S, 0x01028000, f3F⟩,
-  ⟨FSUB_D, 0x01030000, f3F⟩,
-  ⟨FMUL_S, 0x01048000, f3F⟩,
-  ⟨FMUL_D, 0x01050000, f3F⟩,
-  ⟨FDIV_S, 0x01068000, f3F⟩,
-  ⟨FDIV_D, 0x01070000, f3F⟩,
-  ⟨FMAX_S, 0x01088000, f3F⟩,
-  ⟨FMAX_D, 0x01090000, f3F⟩,
-  ⟨FMIN_S, 0x010a8000, f3F⟩,
-  ⟨FMIN_D, 0x010b0000, f3F⟩,
-  ⟨FMAXA_S, 0x010c8000, f3F⟩,
-  ⟨FMAXA_D, 0x010d0000, f3F⟩,
-  ⟨FMINA_S, 0x010e8000, f3F⟩,
-  ⟨FMINA_D, 0x010f0000, f3F⟩,
-  ⟨FSCALEB_S, 0x01108000, f3F⟩,
-  ⟨FSCALEB_D, 0x01110000, f3F⟩,
-  ⟨FCOPYSIGN_S, 0x01128000, f3F⟩,
-  ⟨FCOPYSIGN_D, 0x01130000, f3F⟩,
-  ⟨FABS_S, 0x01140400, f2F⟩,
-  ⟨FABS_D, 0x01140800, f2F⟩,
-  ⟨FNEG_S, 0x01141400, f2F⟩,
-  ⟨FNEG_D, 0x01141800, f2F⟩,
-  ⟨FLOGB_S, 0x01142400, f2F⟩,
-  ⟨FLOGB_D, 0x01142800, f2F⟩,
-  ⟨FCLASS_S, 0x01143400, f2F⟩,
-  ⟨FCLASS_D, 0x01143800, f2F⟩,
-  ⟨FSQRT_S, 0x01144400, f2F⟩,
-  ⟨FSQRT_D, 0x01144800, f2F⟩,
-  ⟨FRECIP_S, 0x01145400, f2F⟩,
-  ⟨FRECIP_D, 0x01145800, f2F⟩,
-  ⟨FRSQRT_S, 0x01146400, f2F⟩,
-  ⟨FRSQRT_D, 0x01146800, f2F⟩,
-  ⟨FRECIPE_S, 0x01147400, f2F⟩,
-  ⟨FRECIPE_D, 0x01147800, f2F⟩,
-  ⟨FRSQRTE_S, 0x01148400, f2F⟩,
-  ⟨FRSQRTE_D, 0x01148800, f2F⟩,
-  ⟨FMOV_S, 0x01149400, f2F⟩,
-  ⟨FMOV_D, 0x01149800, f2F⟩,
-  ⟨MOVGR2FR_W, 0x0114a400, f1F_1R⟩,
-  ⟨MOVGR2FR_D, 0x0114a800, f1F_1R⟩,
-  ⟨MOVGR2FRH_W, 0x0114ac00, f1F_1R⟩,
-  ⟨MOVFR2GR_S, 0x0114b400, f1R_1F⟩,
-  ⟨MOVFR2GR_D, 0x0114b800, f1R_1F⟩,
-  ⟨MOVFRH2GR_S, 0x0114bc00, f1R_1F⟩,
-  ⟨MOVGR2FCSR, 0x0114c000, ffcsr_1R⟩,
-  ⟨MOVFCSR2GR, 0x0114c800, f1R_fcsr⟩,
-  ⟨MOVFR2CF, 0x0114d000, fcd_1F⟩,
-  ⟨MOVCF2FR, 0x0114d400, f1F_cj⟩,
-  ⟨MOVGR2CF, 0x0114d800, fcd_1R⟩,
-  ⟨MOVCF2GR, 0x0114dc00, f1R_cj⟩,
-  ⟨FCVT_S_D, 0x01191800, f2F⟩,
-  ⟨FCVT_D_S, 0x01192400, f2F⟩,
-  ⟨FTINTRM_W_S, 0x011a0400, f2F⟩,
-  ⟨FTINTRM_W_D, 0x011a0800, f2F⟩,
-  ⟨FTINTRM_L_S, 0x011a2400, f2F⟩,
-  ⟨FTINTRM_L_D, 0x011a2800, f2F⟩,
-  ⟨FTINTRP_W_S, 0x011a4400, f2F⟩,
-  ⟨FTINTRP_W_D, 0x011a4800, f2F⟩,
-  ⟨FTINTRP_L_S, 0x011a6400, f2F⟩,
-  ⟨FTINTRP_L_D, 0x011a6800, f2F⟩,
-  ⟨FTINTRZ_W_S, 0x011a8400, f2F⟩,
-  ⟨FTINTRZ_W_D, 0x011a8800, f2F⟩,
-  ⟨FTINTRZ_L_S, 0x011aa400, f2F⟩,
-  ⟨FTINTRZ_L_D, 0x011aa800, f2F⟩,
-  ⟨FTINTRNE_W_S, 0x011ac400, f2F⟩,
-  ⟨FTINTRNE_W_D, 0x011ac800, f2F⟩,
-  ⟨FTINTRNE_L_S, 0x011ae400, f2F⟩,
-  ⟨FTINTRNE_L_D, 0x011ae800, f2F⟩,
-  ⟨FTINT_W_S, 0x011b0400, f2F⟩,
-  ⟨FTINT_W_D, 0x011b0800, f2F⟩,
-  ⟨FTINT_L_S, 0x011b2400, f2F⟩,
-  ⟨FTINT_L_D, 0x011b2800, f2F⟩,
-  ⟨FFINT_S_W, 0x011d1000, f2F⟩,
-  ⟨FFINT_S_L, 0x011d1800, f2F⟩,
-  ⟨FFINT_D_W, 0x011d2000, f2F⟩,
-  ⟨FFINT_D_L, 0x011d2800, f2F⟩,
-  ⟨FRINT_S, 0x011e4400, f2F⟩,
-  ⟨FRINT_D, 0x011e4800, f2F⟩,
-  ⟨SLTI, 0x02000000, f2R_si12⟩,
-  ⟨SLTUI, 0x02400000, f2R_si12⟩,
-  ⟨ADDI_W, 0x02800000, f2R_si12⟩,
-  ⟨ADDI_D, 0x02c00000, f2R_si12⟩,
-  ⟨LU52I_D, 0x03000000, f2R_si12⟩,
-  ⟨ANDI, 0x03400000, f2R_ui12⟩,
-  ⟨ORI, 0x03800000, f2R_ui12⟩,
-  ⟨XORI, 0x03c00000, f2R_ui12⟩,
-  ⟨CSRRD, 0x04000000, f1R_csr⟩,
-  ⟨CSRWR, 0x04000020, f1R_csr⟩,
-  ⟨CSRXCHG, 0x04000000, f2R_csr⟩,
-  ⟨CACOP, 0x06000000, fcode_1R_si12⟩,
-  ⟨LDDIR, 0x06400000, f2R_level⟩,
-  ⟨LDPTE, 0x06440000, f0_1R_seq⟩,
-  ⟨IOCSRRD_B, 0x06480000, f2R⟩,
-  ⟨IOCSRRD_H, 0x06480400, f2R⟩,
-  ⟨IOCSRRD_W, 0x06480800, f2R⟩,
-  ⟨IOCSRRD_D, 0x06480c00, f2R⟩,
-  ⟨IOCSRWR_B, 0x06481000, f2R⟩,
-  ⟨IOCSRWR_H, 0x06481400, f2R⟩,
-  ⟨IOCSRWR_W, 0x06481800, f2R⟩,
-  ⟨IOCSRWR_D, 0x06481c00, f2R⟩,
-  ⟨TLBCLR, 0x06482000, fNULL⟩,
-  ⟨TLBFLUSH, 0x06482400, fNULL⟩,
-  ⟨TLBSRCH, 0x06482800, fNULL⟩,
-  ⟨TLBRD, 0x06482c00, fNULL⟩,
-  ⟨TLBWR, 0x06483000, fNULL⟩,
-  ⟨TLBFILL, 0x06483400, fNULL⟩,
-  ⟨ERTN, 0x06483800, fNULL⟩,
-  ⟨IDLE, 0x06488000, flevel⟩,
-  ⟨INVTLB, 0x06498000, fop_2R⟩,
-  ⟨FMADD_S, 0x08100000, f4F⟩,
-  ⟨FMADD_D, 0x08200000, f4F⟩,
-  ⟨FMSUB_S, 0x08500000, f4F⟩,
-  ⟨FMSUB_D, 0x08600000, f4F⟩,
-  ⟨FNMADD_S, 0x08900000, f4F⟩,
-  ⟨FNMADD_D, 0x08a00000, f4F⟩,
-  ⟨FNMSUB_S, 0x08d00000, f4F⟩,
-  ⟨FNMSUB_D, 0x08e00000, f4F⟩,
-  ⟨FCMP_CAF_S, 0x0c100000, fcd_2F⟩,
-  ⟨FCMP_CAF_D, 0x0c200000, fcd_2F⟩,
-  ⟨FCMP_SAF_S, 0x0c108000, fcd_2F⟩,
-  ⟨FCMP_SAF_D, 0x0c208000, fcd_2F⟩,
-  ⟨FCMP_CLT_S, 0x0c110000, fcd_2F⟩,
-  ⟨FCMP_CLT_D, 0x0c210000, fcd_2F⟩,
-  ⟨FCMP_SLT_S, 0x0c118000, fcd_2F⟩,
-  ⟨FCMP_SLT_D, 0x0c218000, fcd_2F⟩,
-  ⟨FCMP_CEQ_S, 0x0c120000, fcd_2F⟩,
-  ⟨FCMP_CEQ_D, 0x0c220000, fcd_2F⟩,
-  ⟨FCMP_SEQ_S, 0x0c128000, fcd_2F⟩,
-  ⟨FCMP_SEQ_D, 0x0c228000, fcd_2F⟩,
-  ⟨FCMP_CLE_S, 0x0c130000, fcd_2F⟩,
-  ⟨FCMP_CLE_D, 0x0c230000, fcd_2F⟩,
-  ⟨FCMP_SLE_S, 0x0c138000, fcd_2F⟩,
-  ⟨FCMP_SLE_D, 0x0c238000, fcd_2F⟩,
-  ⟨FCMP_CUN_S, 0x0c140000, fcd_2F⟩,
-  ⟨FCMP_CUN_D, 0x0c240000, fcd_2F⟩,
-  ⟨FCMP_SUN_S, 0x0c148000, fcd_2F⟩,
-  ⟨FCMP_SUN_D, 0x0c248000, fcd_2F⟩,
-  ⟨FCMP_CULT_S, 0x0c150000, fcd_2F⟩,
-  ⟨FCMP_CULT_D, 0x0c250000, fcd_2F⟩,
-  ⟨FCMP_SULT_S, 0x0c158000, fcd_2F⟩,
-  ⟨FCMP_SULT_D, 0x0c258000, fcd_2F⟩,
-  ⟨FCMP_CUEQ_S, 0x0c160000, fcd_2F⟩,
-  ⟨FCMP_CUEQ_D, 0x0c260000, fcd_2F⟩,
-  ⟨FCMP_SUEQ_S, 0x0c168000, fcd_2F⟩,
-  ⟨FCMP_SUEQ_D, 0x0c268000, fcd_2F⟩,
-  ⟨FCMP_CULE_S, 0x0c170000, fcd_2F⟩,
-  ⟨FCMP_CULE_D, 0x0c270000, fcd_2F⟩,
-  ⟨FCMP_SULE_S, 0x0c178000, fcd_2F⟩,
-  ⟨FCMP_SULE_D, 0x0c278000, fcd_2F⟩,
-  ⟨FCMP_CNE_S, 0x0c180000, fcd_2F⟩,
-  ⟨FCMP_CNE_D, 0x0c280000, fcd_2F⟩,
-  ⟨FCMP_SNE_S, 0x0c188000, fcd_2F⟩,
-  ⟨FCMP_SNE_D, 0x0c288000, fcd_2F⟩,
-  ⟨FCMP_COR_S, 0x0c1a0000, fcd_2F⟩,
-  ⟨FCMP_COR_D, 0x0c2a0000, fcd_2F⟩,
-  ⟨FCMP_SOR_S, 0x0c1a8000, fcd_2F⟩,
-  ⟨FCMP_SOR_D, 0x0c2a8000, fcd_2F⟩,
-  ⟨FCMP_CUNE_S, 0x0c1c0000, fcd_2F⟩,
-  ⟨FCMP_CUNE_D, 0x0c2c0000, fcd_2F⟩,
-  ⟨FCMP_SUNE_S, 0x0c1c8000, fcd_2F⟩,
-  ⟨FCMP_SUNE_D, 0x0c2c8000, fcd_2F⟩,
-  ⟨FSEL, 0x0d000000, f3F_ca⟩,
-  ⟨ADDU16I_D, 0x10000000, f2R_si16⟩,
-  ⟨LU12I_W, 0x14000000, f1R_si20⟩,
-  ⟨LU32I_D, 0x16000000, f1R_si20⟩,
-  ⟨PCADDI, 0x18000000, f1R_si20⟩,
-  ⟨PCALAU12I, 0x1a000000, f1R_si20⟩,
-  ⟨PCADDU12I, 0x1c000000, f1R_si20⟩,
-  ⟨PCADDU18I, 0x1e000000, f1R_si20⟩,
-  ⟨LL_W, 0x20000000, f2R_si14⟩,
-  ⟨SC_W, 0x21000000, f2R_si14⟩,
-  ⟨LL_D, 0x22000000, f2R_si14⟩,
-  ⟨SC_D, 0x23000000, f2R_si14⟩,
-  ⟨LDPTR_W, 0x24000000, f2R_si14⟩,
-  ⟨STPTR_W, 0x25000000, f2R_si14⟩,
-  ⟨LDPTR_D, 0x26000000, f2R_si14⟩,
-  ⟨STPTR_D, 0x27000000, f2R_si14⟩,
-  ⟨LD_B, 0x28000000, f2R_si12⟩,
-  ⟨LD_H, 0x28400000, f2R_si12⟩,
-  ⟨LD_W, 0x28800000, f2R_si12⟩,
-  ⟨LD_D, 0x28c00000, f2R_si12⟩,
-  ⟨ST_B, 0x29000000, f2R_si12⟩,
-  ⟨ST_H, 0x29400000, f2R_si12⟩,
-  ⟨ST_W, 0x29800000, f2R_si12⟩,
-  ⟨ST_D, 0x29c00000, f2R_si12⟩,
-  ⟨LD_BU, 0x2a000000, f2R_si12⟩,
-  ⟨LD_HU, 0x2a400000, f2R_si12⟩,
-  ⟨LD_WU, 0x2a800000, f2R_si12⟩,
-  ⟨PRELD, 0x2ac00000, fhint_1R_si12⟩,
-  ⟨FLD_S, 0x2b000000, f1F_1R_si12⟩,
-  ⟨FST_S, 0x2b400000, f1F_1R_si12⟩,
-  ⟨FLD_D, 0x2b800000, f1F_1R_si12⟩,
-  ⟨FST_D, 0x2bc00000, f1F_1R_si12⟩,
-  ⟨LDX_B, 0x38000000, f3R⟩,
-  ⟨LDX_H, 0x38040000, f3R⟩,
-  ⟨LDX_W, 0x38080000, f3R⟩,
-  ⟨LDX_D, 0x380c0000, f3R⟩,
-  ⟨STX_B, 0x38100000, f3R⟩,
-  ⟨STX_H, 0x38140000, f3R⟩,
-  ⟨STX_W, 0x38180000, f3R⟩,
-  ⟨STX_D, 0x381c0000, f3R⟩,
-  ⟨LDX_BU, 0x38200000, f3R⟩,
-  ⟨LDX_HU, 0x38240000, f3R⟩,
-  ⟨LDX_WU, 0x38280000, f3R⟩,
-  ⟨PRELDX, 0x382c0000, fhint_2R⟩,
-  ⟨FLDX_S, 0x38300000, f1F_2R⟩,
-  ⟨FLDX_D, 0x38340000, f1F_2R⟩,
-  ⟨FSTX_S, 0x38380000, f1F_2R⟩,
-  ⟨FSTX_D, 0x383c0000, f1F_2R⟩,
-  ⟨SC_Q, 0x38570000, f3R⟩,
-  ⟨LLACQ_W, 0x38578000, f2R⟩,
-  ⟨SCREL_W, 0x38578400, f2R⟩,
-  ⟨LLACQ_D, 0x38578800, f2R⟩,
-  ⟨SCREL_D, 0x38578c00, f2R⟩,
-  ⟨AMCAS_B, 0x38580000, f3R⟩,
-  ⟨AMCAS_H, 0x38588000, f3R⟩,
-  ⟨AMCAS_W, 0x38590000, f3R⟩,
-  ⟨AMCAS_D, 0x38598000, f3R⟩,
-  ⟨AMCAS_DB_B, 0x385a0000, f3R⟩,
-  ⟨AMCAS_DB_H, 0x385a8000, f3R⟩,
-  ⟨AMCAS_DB_W, 0x385b0000, f3R⟩,
-  ⟨AMCAS_DB_D, 0x385b8000, f3R⟩,
-  ⟨AMSWAP_B, 0x385c0000, f3R⟩,
-  ⟨AMSWAP_H, 0x385c8000, f3R⟩,
-  ⟨AMADD_B, 0x385d0000, f3R⟩,
-  ⟨AMADD_H, 0x385d8000, f3R⟩,
-  ⟨AMSWAP_DB_B, 0x385e0000, f3R⟩,
-  ⟨AMSWAP_DB_H, 0x385e8000, f3R⟩,
-  ⟨AMADD_DB_B, 0x385f0000, f3R⟩,
-  ⟨AMADD_DB_H, 0x385f8000, f3R⟩,
-  ⟨AMSWAP_W, 0x38600000, f3R⟩,
-  ⟨AMSWAP_D, 0x38608000, f3R⟩,
-  ⟨AMADD_W, 0x38610000, f3R⟩,
-  ⟨AMADD_D, 0x38618000, f3R⟩,
-  ⟨AMAND_W, 0x38620000, f3R⟩,
-  ⟨AMAND_D, 0x38628000, f3R⟩,
-  ⟨AMOR_W, 0x38630000, f3R⟩,
-  ⟨AMOR_D, 0x38638000, f3R⟩,
-  ⟨AMXOR_W, 0x38640000, f3R⟩,
-  ⟨AMXOR_D, 0x38648000, f3R⟩,
-  ⟨AMMAX_W, 0x38650000, f3R⟩,
-  ⟨AMMAX_D, 0x38658000, f3R⟩,
-  ⟨AMMIN_W, 0x38660000, f3R⟩,
-  ⟨AMMIN_D, 0x38668000, f3R⟩,
-  ⟨AMMAX_WU, 0x38670000, f3R⟩,
-  ⟨AMMAX_DU, 0x38678000, f3R⟩,
-  ⟨AMMIN_WU, 0x38680000, f3R⟩,
-  ⟨AMMIN_DU, 0x38688000, f3R⟩,
-  ⟨AMSWAP_DB_W, 0x38690000, f3R⟩,
-  ⟨AMSWAP_DB_D, 0x38698000, f3R⟩,
-  ⟨AMADD_DB_W, 0x386a0000, f3R⟩,
-  ⟨AMADD_DB_D, 0x386a8000, f3R⟩,
-  ⟨AMAND_DB_W, 0x386b0000, f3R⟩,
-  ⟨AMAND_DB_D, 0x386b8000, f3R⟩,
-  ⟨AMOR_DB_W, 0x386c0000, f3R⟩,
-  ⟨AMOR_DB_D, 0x386c8000, f3R⟩,
-  ⟨AMXOR_DB_W, 0x386d0000, f3R⟩,
-  ⟨AMXOR_DB_D, 0x386d8000, f3R⟩,
-  ⟨AMMAX_DB_W, 0x386e0000, f3R⟩,
-  ⟨AMMAX_DB_D, 0x386e8000, f3R⟩,
-  ⟨AMMIN_DB_W, 0x386f0000, f3R⟩,
-  ⟨AMMIN_DB_D, 0x386f8000, f3R⟩,
-  ⟨AMMAX_DB_WU, 0x38700000, f3R⟩,
-  ⟨AMMAX_DB_DU, 0x38708000, f3R⟩,
-  ⟨AMMIN_DB_WU, 0x38710000, f3R⟩,
-  ⟨AMMIN_DB_DU, 0x38718000, f3R⟩,
-  ⟨DBAR, 0x38720000, fhint⟩,
-  ⟨IBAR, 0x38728000, fhint⟩,
-  ⟨FLDGT_S, 0x38740000, f1F_2R⟩,
-  ⟨FLDGT_D, 0x38748000, f1F_2R⟩,
-  ⟨FLDLE_S, 0x38750000, f1F_2R⟩,
-  ⟨FLDLE_D, 0x38758000, f1F_2R⟩,
-  ⟨FSTGT_S, 0x38760000, f1F_2R⟩,
-  ⟨FSTGT_D, 0x38768000, f1F_2R⟩,
-  ⟨FSTLE_S, 0x38770000, f1F_2R⟩,
-  ⟨FSTLE_D, 0x38778000, f1F_2R⟩,
-  ⟨LDGT_B, 0x38780000, f3R⟩,
-  ⟨LDGT_H, 0x38788000, f3R⟩,
-  ⟨LDGT_W, 0x38790000, f3R⟩,
-  ⟨LDGT_D, 0x38798000, f3R⟩,
-  ⟨LDLE_B, 0x387a0000, f3R⟩,
-  ⟨LDLE_H, 0x387a8000, f3R⟩,
-  ⟨LDLE_W, 0x387b0000, f3R⟩,
-  ⟨LDLE_D, 0x387b8000, f3R⟩,
-  ⟨STGT_B, 0x387c0000, f3R⟩,
-  ⟨STGT_H, 0x387c8000, f3R⟩,
-  ⟨STGT_W, 0x387d0000, f3R⟩,
-  ⟨STGT_D, 0x387d8000, f3R⟩,
-  ⟨STLE_B, 0x387e0000, f3R⟩,
-  ⟨STLE_H, 0x387e8000, f3R⟩,
-  ⟨STLE_W, 0x387f0000, f3R⟩,
-  ⟨STLE_D, 0x387f8000, f3R⟩,
-  ⟨BEQZ, 0x40000000, frj_offset⟩,
-  ⟨BNEZ, 0x44000000, frj_offset⟩,
-  ⟨BCEQZ, 0x48000000, fcj_offset⟩,
-  ⟨BCNEZ, 0x48000100, fcj_offset⟩,
-  ⟨JIRL, 0x4c000000, frd_rj_offset⟩,
-  ⟨B, 0x50000000, foffset⟩,
-  ⟨BL, 0x54000000, foffset⟩,
-  ⟨BEQ, 0x58000000, frj_rd_offset⟩,
-  ⟨BNE, 0x5c000000, frj_rd_offset⟩,
-  ⟨BLT, 0x60000000, frj_rd_offset⟩,
-  ⟨BGE, 0x64000000, frj_rd_offset⟩,
-  ⟨BLTU, 0x68000000, frj_rd_offset⟩,
-  ⟨BGEU, 0x6c000000, frj_rd_offset⟩
+  ⟨CLO_W, 0x00001000, 0xfffffc00, f2R⟩,
+  ⟨CLZ_W, 0x00001400, 0xfffffc00, f2R⟩,
+  ⟨CTO_W, 0x00001800, 0xfffffc00, f2R⟩,
+  ⟨CTZ_W, 0x00001c00, 0xfffffc00, f2R⟩,
+  ⟨CLO_D, 0x00002000, 0xfffffc00, f2R⟩,
+  ⟨CLZ_D, 0x00002400, 0xfffffc00, f2R⟩,
+  ⟨CTO_D, 0x00002800, 0xfffffc00, f2R⟩,
+  ⟨CTZ_D, 0x00002c00, 0xfffffc00, f2R⟩,
+  ⟨REVB_2H, 0x00003000, 0xfffffc00, f2R⟩,
+  ⟨REVB_4H, 0x00003400, 0xfffffc00, f2R⟩,
+  ⟨REVB_2W, 0x00003800, 0xfffffc00, f2R⟩,
+  ⟨REVB_D, 0x00003c00, 0xfffffc00, f2R⟩,
+  ⟨REVH_2W, 0x00004000, 0xfffffc00, f2R⟩,
+  ⟨REVH_D, 0x00004400, 0xfffffc00, f2R⟩,
+  ⟨BITREV_4B, 0x00004800, 0xfffffc00, f2R⟩,
+  ⟨BITREV_8B, 0x00004c00, 0xfffffc00, f2R⟩,
+  ⟨BITREV_W, 0x00005000, 0xfffffc00, f2R⟩,
+  ⟨BITREV_D, 0x00005400, 0xfffffc00, f2R⟩,
+  ⟨EXT_W_H, 0x00005800, 0xfffffc00, f2R⟩,
+  ⟨EXT_W_B, 0x00005c00, 0xfffffc00, f2R⟩,
+  ⟨RDTIMEL_W, 0x00006000, 0xfffffc00, f2R⟩,
+  ⟨RDTIMEH_W, 0x00006400, 0xfffffc00, f2R⟩,
+  ⟨RDTIME_D, 0x00006800, 0xfffffc00, f2R⟩,
+  ⟨CPUCFG, 0x00006c00, 0xfffffc00, f2R⟩,
+  ⟨ASRTLE_D, 0x00010000, 0xffff801f, f0_2R⟩,
+  ⟨ASRTGT_D, 0x00018000, 0xffff801f, f0_2R⟩,
+  ⟨ALSL_W, 0x00040000, 0xfffe0000, f3R_sa2⟩,
+  ⟨ALSL_WU, 0x00060000, 0xfffe0000, f3R_sa2⟩,
+  ⟨BYTEPICK_W, 0x00080000, 0xfffe0000, f3R_sa2⟩,
+  ⟨BYTEPICK_D, 0x000c0000, 0xfffc0000, f3R_sa3⟩,
+  ⟨ADD_W, 0x00100000, 0xffff8000, f3R⟩,
+  ⟨ADD_D, 0x00108000, 0xffff8000, f3R⟩,
+  ⟨SUB_W, 0x00110000, 0xffff8000, f3R⟩,
+  ⟨SUB_D, 0x00118000, 0xffff8000, f3R⟩,
+  ⟨SLT, 0x00120000, 0xffff8000, f3R⟩,
+  ⟨SLTU, 0x00128000, 0xffff8000, f3R⟩,
+  ⟨MASKEQZ, 0x00130000, 0xffff8000, f3R⟩,
+  ⟨MASKNEZ, 0x00138000, 0xffff8000, f3R⟩,
+  ⟨NOR, 0x00140000, 0xffff8000, f3R⟩,
+  ⟨AND, 0x00148000, 0xffff8000, f3R⟩,
+  ⟨OR, 0x00150000, 0xffff8000, f3R⟩,
+  ⟨XOR, 0x00158000, 0xffff8000, f3R⟩,
+  ⟨ORN, 0x00160000, 0xffff8000, f3R⟩,
+  ⟨ANDN, 0x00168000, 0xffff8000, f3R⟩,
+  ⟨SLL_W, 0x00170000, 0xffff8000, f3R⟩,
+  ⟨SRL_W, 0x00178000, 0xffff8000, f3R⟩,
+  ⟨SRA_W, 0x00180000, 0xffff8000, f3R⟩,
+  ⟨SLL_D, 0x00188000, 0xffff8000, f3R⟩,
+  ⟨SRL_D, 0x00190000, 0xffff8000, f3R⟩,
+  ⟨SRA_D, 0x00198000, 0xffff8000, f3R⟩,
+  ⟨ROTR_W, 0x001b0000, 0xffff8000, f3R⟩,
+  ⟨ROTR_D, 0x001b8000, 0xffff8000, f3R⟩,
+  ⟨MUL_W, 0x001c0000, 0xffff8000, f3R⟩,
+  ⟨MULH_W, 0x001c8000, 0xffff8000, f3R⟩,
+  ⟨MULH_WU, 0x001d0000, 0xffff8000, f3R⟩,
+  ⟨MUL_D, 0x001d8000, 0xffff8000, f3R⟩,
+  ⟨MULH_D, 0x001e0000, 0xffff8000, f3R⟩,
+  ⟨MULH_DU, 0x001e8000, 0xffff8000, f3R⟩,
+  ⟨MULW_D_W, 0x001f0000, 0xffff8000, f3R⟩,
+  ⟨MULW_D_WU, 0x001f8000, 0xffff8000, f3R⟩,
+  ⟨DIV_W, 0x00200000, 0xffff8000, f3R⟩,
+  ⟨MOD_W, 0x00208000, 0xffff8000, f3R⟩,
+  ⟨DIV_WU, 0x00210000, 0xffff8000, f3R⟩,
+  ⟨MOD_WU, 0x00218000, 0xffff8000, f3R⟩,
+  ⟨DIV_D, 0x00220000, 0xffff8000, f3R⟩,
+  ⟨MOD_D, 0x00228000, 0xffff8000, f3R⟩,
+  ⟨DIV_DU, 0x00230000, 0xffff8000, f3R⟩,
+  ⟨MOD_DU, 0x00238000, 0xffff8000, f3R⟩,
+  ⟨CRC_W_B_W, 0x00240000, 0xffff8000, f3R⟩,
+  ⟨CRC_W_H_W, 0x00248000, 0xffff8000, f3R⟩,
+  ⟨CRC_W_W_W, 0x00250000, 0xffff8000, f3R⟩,
+  ⟨CRC_W_D_W, 0x00258000, 0xffff8000, f3R⟩,
+  ⟨CRCC_W_B_W, 0x00260000, 0xffff8000, f3R⟩,
+  ⟨CRCC_W_H_W, 0x00268000, 0xffff8000, f3R⟩,
+  ⟨CRCC_W_W_W, 0x00270000, 0xffff8000, f3R⟩,
+  ⟨CRCC_W_D_W, 0x00278000, 0xffff8000, f3R⟩,
+  ⟨BREAK, 0x002a0000, 0xffff8000, fcode⟩,
+  ⟨DBCL, 0x002a8000, 0xffff8000, fcode⟩,
+  ⟨SYSCALL, 0x002b0000, 0xffff8000, fcode⟩,
+  ⟨ALSL_D, 0x002c0000, 0xfffe0000, f3R_sa2⟩,
+  ⟨SLLI_W, 0x00408000, 0xffff8000, f2R_ui5⟩,
+  ⟨SLLI_D, 0x00410000, 0xffff0000, f2R_ui6⟩,
+  ⟨SRLI_W, 0x00448000, 0xffff8000, f2R_ui5⟩,
+  ⟨SRLI_D, 0x00450000, 0xffff0000, f2R_ui6⟩,
+  ⟨SRAI_W, 0x00488000, 0xffff8000, f2R_ui5⟩,
+  ⟨SRAI_D, 0x00490000, 0xffff0000, f2R_ui6⟩,
+  ⟨ROTRI_W, 0x004c8000, 0xffff8000, f2R_ui5⟩,
+  ⟨ROTRI_D, 0x004d0000, 0xffff0000, f2R_ui6⟩,
+  ⟨BSTRINS_W, 0x00600000, 0xffe08000, f2R_msbw_lsbw⟩,
+  ⟨BSTRPICK_W, 0x00608000, 0xffe08000, f2R_msbw_lsbw⟩,
+  ⟨BSTRINS_D, 0x00800000, 0xffc00000, f2R_msbd_lsbd⟩,
+  ⟨BSTRPICK_D, 0x00c00000, 0xffc00000, f2R_msbd_lsbd⟩,
+  ⟨FADD_S, 0x01008000, 0xffff8000, f3F⟩,
+  ⟨FADD_D, 0x01010000, 0xffff8000, f3F⟩,
+  ⟨FSUB_S, 0x01028000, 0xffff8000, f3F⟩,
+  ⟨FSUB_D, 0x01030000, 0xffff8000, f3F⟩,
+  ⟨FMUL_S, 0x01048000, 0xffff8000, f3F⟩,
+  ⟨FMUL_D, 0x01050000, 0xffff8000, f3F⟩,
+  ⟨FDIV_S, 0x01068000, 0xffff8000, f3F⟩,
+  ⟨FDIV_D, 0x01070000, 0xffff8000, f3F⟩,
+  ⟨FMAX_S, 0x01088000, 0xffff8000, f3F⟩,
+  ⟨FMAX_D, 0x01090000, 0xffff8000, f3F⟩,
+  ⟨FMIN_S, 0x010a8000, 0xffff8000, f3F⟩,
+  ⟨FMIN_D, 0x010b0000, 0xffff8000, f3F⟩,
+  ⟨FMAXA_S, 0x010c8000, 0xffff8000, f3F⟩,
+  ⟨FMAXA_D, 0x010d0000, 0xffff8000, f3F⟩,
+  ⟨FMINA_S, 0x010e8000, 0xffff8000, f3F⟩,
+  ⟨FMINA_D, 0x010f0000, 0xffff8000, f3F⟩,
+  ⟨FSCALEB_S, 0x01108000, 0xffff8000, f3F⟩,
+  ⟨FSCALEB_D, 0x01110000, 0xffff8000, f3F⟩,
+  ⟨FCOPYSIGN_S, 0x01128000, 0xffff8000, f3F⟩,
+  ⟨FCOPYSIGN_D, 0x01130000, 0xffff8000, f3F⟩,
+  ⟨FABS_S, 0x01140400, 0xfffffc00, f2F⟩,
+  ⟨FABS_D, 0x01140800, 0xfffffc00, f2F⟩,
+  ⟨FNEG_S, 0x01141400, 0xfffffc00, f2F⟩,
+  ⟨FNEG_D, 0x01141800, 0xfffffc00, f2F⟩,
+  ⟨FLOGB_S, 0x01142400, 0xfffffc00, f2F⟩,
+  ⟨FLOGB_D, 0x01142800, 0xfffffc00, f2F⟩,
+  ⟨FCLASS_S, 0x01143400, 0xfffffc00, f2F⟩,
+  ⟨FCLASS_D, 0x01143800, 0xfffffc00, f2F⟩,
+  ⟨FSQRT_S, 0x01144400, 0xfffffc00, f2F⟩,
+  ⟨FSQRT_D, 0x01144800, 0xfffffc00, f2F⟩,
+  ⟨FRECIP_S, 0x01145400, 0xfffffc00, f2F⟩,
+  ⟨FRECIP_D, 0x01145800, 0xfffffc00, f2F⟩,
+  ⟨FRSQRT_S, 0x01146400, 0xfffffc00, f2F⟩,
+  ⟨FRSQRT_D, 0x01146800, 0xfffffc00, f2F⟩,
+  ⟨FRECIPE_S, 0x01147400, 0xfffffc00, f2F⟩,
+  ⟨FRECIPE_D, 0x01147800, 0xfffffc00, f2F⟩,
+  ⟨FRSQRTE_S, 0x01148400, 0xfffffc00, f2F⟩,
+  ⟨FRSQRTE_D, 0x01148800, 0xfffffc00, f2F⟩,
+  ⟨FMOV_S, 0x01149400, 0xfffffc00, f2F⟩,
+  ⟨FMOV_D, 0x01149800, 0xfffffc00, f2F⟩,
+  ⟨MOVGR2FR_W, 0x0114a400, 0xfffffc00, f1F_1R⟩,
+  ⟨MOVGR2FR_D, 0x0114a800, 0xfffffc00, f1F_1R⟩,
+  ⟨MOVGR2FRH_W, 0x0114ac00, 0xfffffc00, f1F_1R⟩,
+  ⟨MOVFR2GR_S, 0x0114b400, 0xfffffc00, f1R_1F⟩,
+  ⟨MOVFR2GR_D, 0x0114b800, 0xfffffc00, f1R_1F⟩,
+  ⟨MOVFRH2GR_S, 0x0114bc00, 0xfffffc00, f1R_1F⟩,
+  ⟨MOVGR2FCSR, 0x0114c000, 0xfffffc00, ffcsr_1R⟩,
+  ⟨MOVFCSR2GR, 0x0114c800, 0xfffffc00, f1R_fcsr⟩,
+  ⟨MOVFR2CF, 0x0114d000, 0xfffffc18, fcd_1F⟩,
+  ⟨MOVCF2FR, 0x0114d400, 0xffffff00, f1F_cj⟩,
+  ⟨MOVGR2CF, 0x0114d800, 0xfffffc18, fcd_1R⟩,
+  ⟨MOVCF2GR, 0x0114dc00, 0xffffff00, f1R_cj⟩,
+  ⟨FCVT_S_D, 0x01191800, 0xfffffc00, f2F⟩,
+  ⟨FCVT_D_S, 0x01192400, 0xfffffc00, f2F⟩,
+  ⟨FTINTRM_W_S, 0x011a0400, 0xfffffc00, f2F⟩,
+  ⟨FTINTRM_W_D, 0x011a0800, 0xfffffc00, f2F⟩,
+  ⟨FTINTRM_L_S, 0x011a2400, 0xfffffc00, f2F⟩,
+  ⟨FTINTRM_L_D, 0x011a2800, 0xfffffc00, f2F⟩,
+  ⟨FTINTRP_W_S, 0x011a4400, 0xfffffc00, f2F⟩,
+  ⟨FTINTRP_W_D, 0x011a4800, 0xfffffc00, f2F⟩,
+  ⟨FTINTRP_L_S, 0x011a6400, 0xfffffc00, f2F⟩,
+  ⟨FTINTRP_L_D, 0x011a6800, 0xfffffc00, f2F⟩,
+  ⟨FTINTRZ_W_S, 0x011a8400, 0xfffffc00, f2F⟩,
+  ⟨FTINTRZ_W_D, 0x011a8800, 0xfffffc00, f2F⟩,
+  ⟨FTINTRZ_L_S, 0x011aa400, 0xfffffc00, f2F⟩,
+  ⟨FTINTRZ_L_D, 0x011aa800, 0xfffffc00, f2F⟩,
+  ⟨FTINTRNE_W_S, 0x011ac400, 0xfffffc00, f2F⟩,
+  ⟨FTINTRNE_W_D, 0x011ac800, 0xfffffc00, f2F⟩,
+  ⟨FTINTRNE_L_S, 0x011ae400, 0xfffffc00, f2F⟩,
+  ⟨FTINTRNE_L_D, 0x011ae800, 0xfffffc00, f2F⟩,
+  ⟨FTINT_W_S, 0x011b0400, 0xfffffc00, f2F⟩,
+  ⟨FTINT_W_D, 0x011b0800, 0xfffffc00, f2F⟩,
+  ⟨FTINT_L_S, 0x011b2400, 0xfffffc00, f2F⟩,
+  ⟨FTINT_L_D, 0x011b2800, 0xfffffc00, f2F⟩,
+  ⟨FFINT_S_W, 0x011d1000, 0xfffffc00, f2F⟩,
+  ⟨FFINT_S_L, 0x011d1800, 0xfffffc00, f2F⟩,
+  ⟨FFINT_D_W, 0x011d2000, 0xfffffc00, f2F⟩,
+  ⟨FFINT_D_L, 0x011d2800, 0xfffffc00, f2F⟩,
+  ⟨FRINT_S, 0x011e4400, 0xfffffc00, f2F⟩,
+  ⟨FRINT_D, 0x011e4800, 0xfffffc00, f2F⟩,
+  ⟨SLTI, 0x02000000, 0xffc00000, f2R_si12⟩,
+  ⟨SLTUI, 0x02400000, 0xffc00000, f2R_si12⟩,
+  ⟨ADDI_W, 0x02800000, 0xffc00000, f2R_si12⟩,
+  ⟨ADDI_D, 0x02c00000, 0xffc00000, f2R_si12⟩,
+  ⟨LU52I_D, 0x03000000, 0xffc00000, f2R_si12⟩,
+  ⟨ANDI, 0x03400000, 0xffc00000, f2R_ui12⟩,
+  ⟨ORI, 0x03800000, 0xffc00000, f2R_ui12⟩,
+  ⟨XORI, 0x03c00000, 0xffc00000, f2R_ui12⟩,
+  ⟨CSRRD, 0x04000000, 0xff0003e0, f1R_csr⟩,
+  ⟨CSRWR, 0x04000020, 0xff0003e0, f1R_csr⟩,
+  ⟨CSRXCHG, 0x04000000, 0xff000000, f2R_csr⟩,
+  ⟨CACOP, 0x06000000, 0xffc00000, fcode_1R_si12⟩,
+  ⟨LDDIR, 0x06400000, 0xfffc0000, f2R_level⟩,
+  ⟨LDPTE, 0x06440000, 0xfffc001f, f0_1R_seq⟩,
+  ⟨IOCSRRD_B, 0x06480000, 0xfffffc00, f2R⟩,
+  ⟨IOCSRRD_H, 0x06480400, 0xfffffc00, f2R⟩,
+  ⟨IOCSRRD_W, 0x06480800, 0xfffffc00, f2R⟩,
+  ⟨IOCSRRD_D, 0x06480c00, 0xfffffc00, f2R⟩,
+  ⟨IOCSRWR_B, 0x06481000, 0xfffffc00, f2R⟩,
+  ⟨IOCSRWR_H, 0x06481400, 0xfffffc00, f2R⟩,
+  ⟨IOCSRWR_W, 0x06481800, 0xfffffc00, f2R⟩,
+  ⟨IOCSRWR_D, 0x06481c00, 0xfffffc00, f2R⟩,
+  ⟨TLBCLR, 0x06482000, 0xffffffff, fNULL⟩,
+  ⟨TLBFLUSH, 0x06482400, 0xffffffff, fNULL⟩,
+  ⟨TLBSRCH, 0x06482800, 0xffffffff, fNULL⟩,
+  ⟨TLBRD, 0x06482c00, 0xffffffff, fNULL⟩,
+  ⟨TLBWR, 0x06483000, 0xffffffff, fNULL⟩,
+  ⟨TLBFILL, 0x06483400, 0xffffffff, fNULL⟩,
+  ⟨ERTN, 0x06483800, 0xffffffff, fNULL⟩,
+  ⟨IDLE, 0x06488000, 0xffff8000, flevel⟩,
+  ⟨INVTLB, 0x06498000, 0xffff8000, fop_2R⟩,
+  ⟨FMADD_S, 0x08100000, 0xfff00000, f4F⟩,
+  ⟨FMADD_D, 0x08200000, 0xfff00000, f4F⟩,
+  ⟨FMSUB_S, 0x08500000, 0xfff00000, f4F⟩,
+  ⟨FMSUB_D, 0x08600000, 0xfff00000, f4F⟩,
+  ⟨FNMADD_S, 0x08900000, 0xfff00000, f4F⟩,
+  ⟨FNMADD_D, 0x08a00000, 0xfff00000, f4F⟩,
+  ⟨FNMSUB_S, 0x08d00000, 0xfff00000, f4F⟩,
+  ⟨FNMSUB_D, 0x08e00000, 0xfff00000, f4F⟩,
+  ⟨FCMP_CAF_S, 0x0c100000, 0xffff8018, fcd_2F⟩,
+  ⟨FCMP_CAF_D, 0x0c200000, 0xffff8018, fcd_2F⟩,
+  ⟨FCMP_SAF_S, 0x0c108000, 0xffff8018, fcd_2F⟩,
+  ⟨FCMP_SAF_D, 0x0c208000, 0xffff8018, fcd_2F⟩,
+  ⟨FCMP_CLT_S, 0x0c110000, 0xffff8018, fcd_2F⟩,
+  ⟨FCMP_CLT_D, 0x0c210000, 0xffff8018, fcd_2F⟩,
+  ⟨FCMP_SLT_S, 0x0c118000, 0xffff8018, fcd_2F⟩,
+  ⟨FCMP_SLT_D, 0x0c218000, 0xffff8018, fcd_2F⟩,
+  ⟨FCMP_CEQ_S, 0x0c120000, 0xffff8018, fcd_2F⟩,
+  ⟨FCMP_CEQ_D, 0x0c220000, 0xffff8018, fcd_2F⟩,
+  ⟨FCMP_SEQ_S, 0x0c128000, 0xffff8018, fcd_2F⟩,
+  ⟨FCMP_SEQ_D, 0x0c228000, 0xffff8018, fcd_2F⟩,
+  ⟨FCMP_CLE_S, 0x0c130000, 0xffff8018, fcd_2F⟩,
+  ⟨FCMP_CLE_D, 0x0c230000, 0xffff8018, fcd_2F⟩,
+  ⟨FCMP_SLE_S, 0x0c138000, 0xffff8018, fcd_2F⟩,
+  ⟨FCMP_SLE_D, 0x0c238000, 0xffff8018, fcd_2F⟩,
+  ⟨FCMP_CUN_S, 0x0c140000, 0xffff8018, fcd_2F⟩,
+  ⟨FCMP_CUN_D, 0x0c240000, 0xffff8018, fcd_2F⟩,
+  ⟨FCMP_SUN_S, 0x0c148000, 0xffff8018, fcd_2F⟩,
+  ⟨FCMP_SUN_D, 0x0c248000, 0xffff8018, fcd_2F⟩,
+  ⟨FCMP_CULT_S, 0x0c150000, 0xffff8018, fcd_2F⟩,
+  ⟨FCMP_CULT_D, 0x0c250000, 0xffff8018, fcd_2F⟩,
+  ⟨FCMP_SULT_S, 0x0c158000, 0xffff8018, fcd_2F⟩,
+  ⟨FCMP_SULT_D, 0x0c258000, 0xffff8018, fcd_2F⟩,
+  ⟨FCMP_CUEQ_S, 0x0c160000, 0xffff8018, fcd_2F⟩,
+  ⟨FCMP_CUEQ_D, 0x0c260000, 0xffff8018, fcd_2F⟩,
+  ⟨FCMP_SUEQ_S, 0x0c168000, 0xffff8018, fcd_2F⟩,
+  ⟨FCMP_SUEQ_D, 0x0c268000, 0xffff8018, fcd_2F⟩,
+  ⟨FCMP_CULE_S, 0x0c170000, 0xffff8018, fcd_2F⟩,
+  ⟨FCMP_CULE_D, 0x0c270000, 0xffff8018, fcd_2F⟩,
+  ⟨FCMP_SULE_S, 0x0c178000, 0xffff8018, fcd_2F⟩,
+  ⟨FCMP_SULE_D, 0x0c278000, 0xffff8018, fcd_2F⟩,
+  ⟨FCMP_CNE_S, 0x0c180000, 0xffff8018, fcd_2F⟩,
+  ⟨FCMP_CNE_D, 0x0c280000, 0xffff8018, fcd_2F⟩,
+  ⟨FCMP_SNE_S, 0x0c188000, 0xffff8018, fcd_2F⟩,
+  ⟨FCMP_SNE_D, 0x0c288000, 0xffff8018, fcd_2F⟩,
+  ⟨FCMP_COR_S, 0x0c1a0000, 0xffff8018, fcd_2F⟩,
+  ⟨FCMP_COR_D, 0x0c2a0000, 0xffff8018, fcd_2F⟩,
+  ⟨FCMP_SOR_S, 0x0c1a8000, 0xffff8018, fcd_2F⟩,
+  ⟨FCMP_SOR_D, 0x0c2a8000, 0xffff8018, fcd_2F⟩,
+  ⟨FCMP_CUNE_S, 0x0c1c0000, 0xffff8018, fcd_2F⟩,
+  ⟨FCMP_CUNE_D, 0x0c2c0000, 0xffff8018, fcd_2F⟩,
+  ⟨FCMP_SUNE_S, 0x0c1c8000, 0xffff8018, fcd_2F⟩,
+  ⟨FCMP_SUNE_D, 0x0c2c8000, 0xffff8018, fcd_2F⟩,
+  ⟨FSEL, 0x0d000000, 0xfffc0000, f3F_ca⟩,
+  ⟨ADDU16I_D, 0x10000000, 0xfc000000, f2R_si16⟩,
+  ⟨LU12I_W, 0x14000000, 0xfe000000, f1R_si20⟩,
+  ⟨LU32I_D, 0x16000000, 0xfe000000, f1R_si20⟩,
+  ⟨PCADDI, 0x18000000, 0xfe000000, f1R_si20⟩,
+  ⟨PCALAU12I, 0x1a000000, 0xfe000000, f1R_si20⟩,
+  ⟨PCADDU12I, 0x1c000000, 0xfe000000, f1R_si20⟩,
+  ⟨PCADDU18I, 0x1e000000, 0xfe000000, f1R_si20⟩,
+  ⟨LL_W, 0x20000000, 0xff000000, f2R_si14⟩,
+  ⟨SC_W, 0x21000000, 0xff000000, f2R_si14⟩,
+  ⟨LL_D, 0x22000000, 0xff000000, f2R_si14⟩,
+  ⟨SC_D, 0x23000000, 0xff000000, f2R_si14⟩,
+  ⟨LDPTR_W, 0x24000000, 0xff000000, f2R_si14⟩,
+  ⟨STPTR_W, 0x25000000, 0xff000000, f2R_si14⟩,
+  ⟨LDPTR_D, 0x26000000, 0xff000000, f2R_si14⟩,
+  ⟨STPTR_D, 0x27000000, 0xff000000, f2R_si14⟩,
+  ⟨LD_B, 0x28000000, 0xffc00000, f2R_si12⟩,
+  ⟨LD_H, 0x28400000, 0xffc00000, f2R_si12⟩,
+  ⟨LD_W, 0x28800000, 0xffc00000, f2R_si12⟩,
+  ⟨LD_D, 0x28c00000, 0xffc00000, f2R_si12⟩,
+  ⟨ST_B, 0x29000000, 0xffc00000, f2R_si12⟩,
+  ⟨ST_H, 0x29400000, 0xffc00000, f2R_si12⟩,
+  ⟨ST_W, 0x29800000, 0xffc00000, f2R_si12⟩,
+  ⟨ST_D, 0x29c00000, 0xffc00000, f2R_si12⟩,
+  ⟨LD_BU, 0x2a000000, 0xffc00000, f2R_si12⟩,
+  ⟨LD_HU, 0x2a400000, 0xffc00000, f2R_si12⟩,
+  ⟨LD_WU, 0x2a800000, 0xffc00000, f2R_si12⟩,
+  ⟨PRELD, 0x2ac00000, 0xffc00000, fhint_1R_si12⟩,
+  ⟨FLD_S, 0x2b000000, 0xffc00000, f1F_1R_si12⟩,
+  ⟨FST_S, 0x2b400000, 0xffc00000, f1F_1R_si12⟩,
+  ⟨FLD_D, 0x2b800000, 0xffc00000, f1F_1R_si12⟩,
+  ⟨FST_D, 0x2bc00000, 0xffc00000, f1F_1R_si12⟩,
+  ⟨LDX_B, 0x38000000, 0xffff8000, f3R⟩,
+  ⟨LDX_H, 0x38040000, 0xffff8000, f3R⟩,
+  ⟨LDX_W, 0x38080000, 0xffff8000, f3R⟩,
+  ⟨LDX_D, 0x380c0000, 0xffff8000, f3R⟩,
+  ⟨STX_B, 0x38100000, 0xffff8000, f3R⟩,
+  ⟨STX_H, 0x38140000, 0xffff8000, f3R⟩,
+  ⟨STX_W, 0x38180000, 0xffff8000, f3R⟩,
+  ⟨STX_D, 0x381c0000, 0xffff8000, f3R⟩,
+  ⟨LDX_BU, 0x38200000, 0xffff8000, f3R⟩,
+  ⟨LDX_HU, 0x38240000, 0xffff8000, f3R⟩,
+  ⟨LDX_WU, 0x38280000, 0xffff8000, f3R⟩,
+  ⟨PRELDX, 0x382c0000, 0xffff8000, fhint_2R⟩,
+  ⟨FLDX_S, 0x38300000, 0xffff8000, f1F_2R⟩,
+  ⟨FLDX_D, 0x38340000, 0xffff8000, f1F_2R⟩,
+  ⟨FSTX_S, 0x38380000, 0xffff8000, f1F_2R⟩,
+  ⟨FSTX_D, 0x383c0000, 0xffff8000, f1F_2R⟩,
+  ⟨SC_Q, 0x38570000, 0xffff8000, f3R⟩,
+  ⟨LLACQ_W, 0x38578000, 0xfffffc00, f2R⟩,
+  ⟨SCREL_W, 0x38578400, 0xfffffc00, f2R⟩,
+  ⟨LLACQ_D, 0x38578800, 0xfffffc00, f2R⟩,
+  ⟨SCREL_D, 0x38578c00, 0xfffffc00, f2R⟩,
+  ⟨AMCAS_B, 0x38580000, 0xffff8000, f3R⟩,
+  ⟨AMCAS_H, 0x38588000, 0xffff8000, f3R⟩,
+  ⟨AMCAS_W, 0x38590000, 0xffff8000, f3R⟩,
+  ⟨AMCAS_D, 0x38598000, 0xffff8000, f3R⟩,
+  ⟨AMCAS_DB_B, 0x385a0000, 0xffff8000, f3R⟩,
+  ⟨AMCAS_DB_H, 0x385a8000, 0xffff8000, f3R⟩,
+  ⟨AMCAS_DB_W, 0x385b0000, 0xffff8000, f3R⟩,
+  ⟨AMCAS_DB_D, 0x385b8000, 0xffff8000, f3R⟩,
+  ⟨AMSWAP_B, 0x385c0000, 0xffff8000, f3R⟩,
+  ⟨AMSWAP_H, 0x385c8000, 0xffff8000, f3R⟩,
+  ⟨AMADD_B, 0x385d0000, 0xffff8000, f3R⟩,
+  ⟨AMADD_H, 0x385d8000, 0xffff8000, f3R⟩,
+  ⟨AMSWAP_DB_B, 0x385e0000, 0xffff8000, f3R⟩,
+  ⟨AMSWAP_DB_H, 0x385e8000, 0xffff8000, f3R⟩,
+  ⟨AMADD_DB_B, 0x385f0000, 0xffff8000, f3R⟩,
+  ⟨AMADD_DB_H, 0x385f8000, 0xffff8000, f3R⟩,
+  ⟨AMSWAP_W, 0x38600000, 0xffff8000, f3R⟩,
+  ⟨AMSWAP_D, 0x38608000, 0xffff8000, f3R⟩,
+  ⟨AMADD_W, 0x38610000, 0xffff8000, f3R⟩,
+  ⟨AMADD_D, 0x38618000, 0xffff8000, f3R⟩,
+  ⟨AMAND_W, 0x38620000, 0xffff8000, f3R⟩,
+  ⟨AMAND_D, 0x38628000, 0xffff8000, f3R⟩,
+  ⟨AMOR_W, 0x38630000, 0xffff8000, f3R⟩,
+  ⟨AMOR_D, 0x38638000, 0xffff8000, f3R⟩,
+  ⟨AMXOR_W, 0x38640000, 0xffff8000, f3R⟩,
+  ⟨AMXOR_D, 0x38648000, 0xffff8000, f3R⟩,
+  ⟨AMMAX_W, 0x38650000, 0xffff8000, f3R⟩,
+  ⟨AMMAX_D, 0x38658000, 0xffff8000, f3R⟩,
+  ⟨AMMIN_W, 0x38660000, 0xffff8000, f3R⟩,
+  ⟨AMMIN_D, 0x38668000, 0xffff8000, f3R⟩,
+  ⟨AMMAX_WU, 0x38670000, 0xffff8000, f3R⟩,
+  ⟨AMMAX_DU, 0x38678000, 0xffff8000, f3R⟩,
+  ⟨AMMIN_WU, 0x38680000, 0xffff8000, f3R⟩,
+  ⟨AMMIN_DU, 0x38688000, 0xffff8000, f3R⟩,
+  ⟨AMSWAP_DB_W, 0x38690000, 0xffff8000, f3R⟩,
+  ⟨AMSWAP_DB_D, 0x38698000, 0xffff8000, f3R⟩,
+  ⟨AMADD_DB_W, 0x386a0000, 0xffff8000, f3R⟩,
+  ⟨AMADD_DB_D, 0x386a8000, 0xffff8000, f3R⟩,
+  ⟨AMAND_DB_W, 0x386b0000, 0xffff8000, f3R⟩,
+  ⟨AMAND_DB_D, 0x386b8000, 0xffff8000, f3R⟩,
+  ⟨AMOR_DB_W, 0x386c0000, 0xffff8000, f3R⟩,
+  ⟨AMOR_DB_D, 0x386c8000, 0xffff8000, f3R⟩,
+  ⟨AMXOR_DB_W, 0x386d0000, 0xffff8000, f3R⟩,
+  ⟨AMXOR_DB_D, 0x386d8000, 0xffff8000, f3R⟩,
+  ⟨AMMAX_DB_W, 0x386e0000, 0xffff8000, f3R⟩,
+  ⟨AMMAX_DB_D, 0x386e8000, 0xffff8000, f3R⟩,
+  ⟨AMMIN_DB_W, 0x386f0000, 0xffff8000, f3R⟩,
+  ⟨AMMIN_DB_D, 0x386f8000, 0xffff8000, f3R⟩,
+  ⟨AMMAX_DB_WU, 0x38700000, 0xffff8000, f3R⟩,
+  ⟨AMMAX_DB_DU, 0x38708000, 0xffff8000, f3R⟩,
+  ⟨AMMIN_DB_WU, 0x38710000, 0xffff8000, f3R⟩,
+  ⟨AMMIN_DB_DU, 0x38718000, 0xffff8000, f3R⟩,
+  ⟨DBAR, 0x38720000, 0xffff8000, fhint⟩,
+  ⟨IBAR, 0x38728000, 0xffff8000, fhint⟩,
+  ⟨FLDGT_S, 0x38740000, 0xffff8000, f1F_2R⟩,
+  ⟨FLDGT_D, 0x38748000, 0xffff8000, f1F_2R⟩,
+  ⟨FLDLE_S, 0x38750000, 0xffff8000, f1F_2R⟩,
+  ⟨FLDLE_D, 0x38758000, 0xffff8000, f1F_2R⟩,
+  ⟨FSTGT_S, 0x38760000, 0xffff8000, f1F_2R⟩,
+  ⟨FSTGT_D, 0x38768000, 0xffff8000, f1F_2R⟩,
+  ⟨FSTLE_S, 0x38770000, 0xffff8000, f1F_2R⟩,
+  ⟨FSTLE_D, 0x38778000, 0xffff8000, f1F_2R⟩,
+  ⟨LDGT_B, 0x38780000, 0xffff8000, f3R⟩,
+  ⟨LDGT_H, 0x38788000, 0xffff8000, f3R⟩,
+  ⟨LDGT_W, 0x38790000, 0xffff8000, f3R⟩,
+  ⟨LDGT_D, 0x38798000, 0xffff8000, f3R⟩,
+  ⟨LDLE_B, 0x387a0000, 0xffff8000, f3R⟩,
+  ⟨LDLE_H, 0x387a8000, 0xffff8000, f3R⟩,
+  ⟨LDLE_W, 0x387b0000, 0xffff8000, f3R⟩,
+  ⟨LDLE_D, 0x387b8000, 0xffff8000, f3R⟩,
+  ⟨STGT_B, 0x387c0000, 0xffff8000, f3R⟩,
+  ⟨STGT_H, 0x387c8000, 0xffff8000, f3R⟩,
+  ⟨STGT_W, 0x387d0000, 0xffff8000, f3R⟩,
+  ⟨STGT_D, 0x387d8000, 0xffff8000, f3R⟩,
+  ⟨STLE_B, 0x387e0000, 0xffff8000, f3R⟩,
+  ⟨STLE_H, 0x387e8000, 0xffff8000, f3R⟩,
+  ⟨STLE_W, 0x387f0000, 0xffff8000, f3R⟩,
+  ⟨STLE_D, 0x387f8000, 0xffff8000, f3R⟩,
+  ⟨BEQZ, 0x40000000, 0xfc000000, frj_offset⟩,
+  ⟨BNEZ, 0x44000000, 0xfc000000, frj_offset⟩,
+  ⟨BCEQZ, 0x48000000, 0xfc000300, fcj_offset⟩,
+  ⟨BCNEZ, 0x48000100, 0xfc000300, fcj_offset⟩,
+  ⟨JIRL, 0x4c000000, 0xfc000000, frd_rj_offset⟩,
+  ⟨B, 0x50000000, 0xfc000000, foffset⟩,
+  ⟨BL, 0x54000000, 0xfc000000, foffset⟩,
+  ⟨BEQ, 0x58000000, 0xfc000000, frj_rd_offset⟩,
+  ⟨BNE, 0x5c000000, 0xfc000000, frj_rd_offset⟩,
+  ⟨BLT, 0x60000000, 0xfc000000, frj_rd_offset⟩,
+  ⟨BGE, 0x64000000, 0xfc000000, frj_rd_offset⟩,
+  ⟨BLTU, 0x68000000, 0xfc000000, frj_rd_offset⟩,
+  ⟨BGEU, 0x6c000000, 0xfc000000, frj_rd_offset⟩
 ]
 
 def isaLookup (mn : Mn) : Option Isa := isaTable.find? (fun e => e.mn == mn)
-
-def Isa.mask (e : Isa) : Nat := maskOf (layout e.fmt)
 
 /-- CSRXCHG shares its opcode with CSRRD (rj = 0) and CSRWR (rj = 1): it is the instruction only for rj ≥ 2 -/
 def Isa.rjGe2 (e : Isa) : Bool := e.fmt == .f2R_csr
 
 /-- reference entry well-formed: a 32-bit value with no bit inside an operand field -/
-def Isa.wf (e : Isa) : Bool := decide (e.value < 4294967296) && (e.value &&& e.mask == e.value)
+def Isa.wf (e : Isa) : Bool :=
+  decide (e.value < 4294967296) && (e.value &&& e.mask == e.value) && (e.mask == maskOf (layout e.fmt))
 
 def Isa.matchesW (e : Isa) (w : Nat) : Bool :=
   decide (w < 4294967296) && (w &&& e.mask == e.value) && (!e.rjGe2 || decide (2 ≤ w / 32 % 32))
@@ -709,6 +709,15 @@ def rowMatchesIsa (r : Row) : Bool :=
   match isaLookup r.mn with
   | some e => rowIsa r e
   | none => false
+
+/-- linear comparison of the (enum-ordered) regenerated table with the reference: every row outside `bad`
+meets the reference entry of its mnemonic; reference entries the repo lacks are skipped -/
+def mergeOK (bad : List Mn) : List Isa → List Row → Bool
+  | [], rows => rows.isEmpty
+  | e :: es, rows =>
+    match rows with
+    | [] => true
+    | r :: rs => if r.mn == e.mn then (bad.contains r.mn || rowIsa r e) && mergeOK bad es rs else mergeOK bad es (r :: rs)
 
 def slotUsed (s : Slot) : List Seg → Bool
   | [] => false
